@@ -52,21 +52,21 @@ type deferred struct {
 }
 
 type Frame struct {
-	fn      *ssa.Function
-	info    *fnInfo
-	regs    []Value
-	block   *ssa.BasicBlock
-	prev    *ssa.BasicBlock
-	pc      int
-	defers  []deferred
-	retTo   ssa.Value // register in the caller frame receiving the result (nil: discard)
-	catch   bool      // vPanics frame: a panic unwinding through here is caught
-	visits  map[int]int
-	retVal  Value
-	hasRet  bool
-	insul   bool // frame of a deferred call running while its parent unwinds
-	onRet   func(Value) // engine continuation when this frame returns (instead of retTo)
-	isDefer bool
+	fn           *ssa.Function
+	info         *fnInfo
+	regs         []Value
+	block        *ssa.BasicBlock
+	prev         *ssa.BasicBlock
+	pc           int
+	defers       []deferred
+	retTo        ssa.Value // register in the caller frame receiving the result (nil: discard)
+	catch        bool      // vPanics frame: a panic unwinding through here is caught
+	visits       map[int]int
+	retVal       Value
+	hasRet       bool
+	insul        bool        // frame of a deferred call running while its parent unwinds
+	onRet        func(Value) // engine continuation when this frame returns (instead of retTo)
+	isDefer      bool
 	afterRecover bool
 }
 
